@@ -9,6 +9,7 @@ Presence-only changes (`Next(true)`) carry no clock by design and are outside th
 causal clauses; `nextPresenceOnly_noClock` states that.
 -/
 import YorkieModel.Lemmas.VV
+import YorkieModel.Generated.Consts
 namespace Yorkie.Props.C06
 open Yorkie
 
@@ -277,6 +278,14 @@ theorem row_le_current (atRequest : ChangeID) (later : List Ev) (h : Inv atReque
     atRequest.vv.versionOf a ≤ (run atRequest later).vv.versionOf a := by
   obtain ⟨_, m2, _⟩ := run_mono atRequest later h he
   exact VV.versionOf_le_of_le m2 (fun a y hy => ((inv_run atRequest later h he).1 a y hy).1) a
+
+/-- T-gen tie: the initial values the model starts from are the constants in the source. -/
+theorem consts_match :
+    ChangeID.initial.lamport = (Generated.Consts.initialLamport : Int) ∧
+    ChangeID.initial.clientSeq = Generated.Consts.initialClientSeq ∧
+    ChangeID.initial.serverSeq = (Generated.Consts.initialServerSeq : Int) ∧
+    Checkpoint.initial = ⟨(Generated.Consts.initialServerSeq : Int), Generated.Consts.initialClientSeq⟩ := by
+  decide
 
 /-! Non-vacuity: a concrete three-actor exchange satisfies every hypothesis used above. -/
 example :
